@@ -245,6 +245,8 @@ func FinishGrid(prop, driver, tier string, seed int64, gs *GridStats, st *Stats,
 		cov["traces_validated_against_impl"] = gs.Conf + st.ConfValidated
 		cov["completed_depth"] = st.CompletedDepth
 		cov["bfs_exhaustive"] = st.Exhaustive
+		cov["grid_exhaustive"] = gs.Exhaustive
+		cov["exhaustive"] = gs.Exhaustive && st.Exhaustive // the BFS part is depth-bounded unless its frontier ran empty
 		cov["bfs_outcomes"] = st.Outcomes
 		cov["frontier_sizes"] = st.Frontier
 		cov["evaluations"] = gs.Evaluations + st.Transitions
